@@ -15,6 +15,7 @@ import (
 	"strings"
 	"sync"
 	"sync/atomic"
+	"syscall"
 	"testing/synctest"
 	"time"
 
@@ -396,6 +397,13 @@ func (s *sink) writeLocked(buf []byte, ap netip.AddrPort) (error, bool) {
 					}
 				}
 			}
+		}
+		if cl == "enobufs" || cl == "eperm" { // a send the kernel refused: the cause is an errno (and the sentinel, for the trace formulas)
+			no := syscall.ENOBUFS
+			if cl == "eperm" {
+				no = syscall.EPERM
+			}
+			return errors.Join(SentinelForRun("write", s.run), no), eager
 		}
 		if cl == "typed" { // the cause carries the type the drivers use for "no packet yet": a failed write is still a failed write
 			return &common.ReceiveProbeNoPktError{Err: SentinelForRun("write", s.run)}, eager
